@@ -88,7 +88,7 @@ impl Prop for C03 {
     fn case_label(&self, tier: Tier, idx: usize) -> String { cases(tier)[idx].label.clone() }
     fn rule(&self) -> String {
         "decode cases: for each of the five formats every status within <= bound field deviations of the default (JSON strings \
-         with quotes/backslashes/non-BMP, description string/chat object/absent, sample absent/empty/1/12, optional members, \
+         with quotes/backslashes/non-BMP, description string/chat object/absent, sample absent/empty/1/12, optional members, a textual description lengthened until the JSON text or the whole packet has a length whose VarInt contains a byte 80 (253 / 256 / 381 / 384 / 16381 / 16384 bytes), \
          u32/i32 boundary values, Bedrock with 6..12 fields and each game mode, UTF-16 strings with surrogate pairs) must be \
          returned exactly. auto-detect cases: all 32 subsets of variants a server speaks x port given/omitted x 4 entry points; \
          oracle: variant label = first spoken variant in the order Java, Bedrock, 1.6, 1.4, b1.8, AutoQuery error iff none, and \
